@@ -105,7 +105,7 @@ func Start(prop, level string) *Run {
 	return r
 }
 
-func (r *Run) Thorough() bool    { return r.Tier == "thorough" }
+func (r *Run) Thorough() bool     { return r.Tier == "thorough" }
 func (r *Run) ReplayFile() string { return r.replayArg }
 
 // Pick returns q in the quick tier and t in the thorough tier.
